@@ -23,6 +23,17 @@ frame.  `r.fuzz` / `r.case` are the structured decode fuzz of the protocol types
 name in another case is ignored wherever a foreign member name is), `r.irm` compares
 `InputRequestMap.UnmarshalJSON` with `decodeInputRequests`.
 
+`sse.frn ( <s<key> s<pad> x<value> <l|c>>* ) <l|c> …` is an event stream as a FOREIGN peer frames it (the
+harness writes it: per line LF or CRLF, comments = empty key, any field order, several data lines): the
+monitor `sse_roundtrip_any_eol` compares the implementation's scan with what the stream denotes
+(`FEvent.denote`).  `sse.lines <x<line> <l|c>>* [e x<rest>]` scans arbitrary LF-free lines as framed
+and again ended by LF: `sse_eol_irrelevant` demands equal scans.  `live.cli sse.<framing>` answers a live
+streamable client in one of the harness' foreign framings (a valid response must be accepted).
+`r.pg.new <pagesize>` / `r.pg.add|rm <method> s<uid>…` / `r.pg.list <method> <-|c<uid>|g<string>>` drive a
+real server + session; the driver keeps the registries (sorted keys) and `listPage` gives the page; the
+observation is the list member AS WRITTEN (`arr n uids nc uid` / `null` / `missing` / `error`), judged by
+`required_lists_present` with the cursor's position in the clause.
+
 Token forms (blank-separated): JVal `z t f i<int> d<m>e<e> s<hex> a[ … ] o{ <hexkey> v … }`
 (object members sorted by key; a string or a member name may instead be `q<hex of the literal's body>`:
 the spelling a foreign peer put on the wire, which the driver turns into the string it denotes with the
